@@ -131,6 +131,9 @@ _md_thematic_pat = re.compile(r"^((-[ \t]*){2,}|(\*[ \t]*){3,}|(_[ \t]*){3,})$")
 # (`-|`, `|-|-|`, `:-:`), if the line above has a pipe. A smiley `:-|` is one of them.
 _md_table_delim_pat = re.compile(r"^[|:\-]*-[|:\-]*$")
 
+# The start of a delimiter cell.
+_md_table_cell_pat = re.compile(r"^:?-")
+
 # Words that open a fenced code block at the start of a line. (A backtick fence cannot have
 # another backtick later in the word; such a word is a code span.)
 _md_fence_pat = re.compile(r"^(`{3,})[^`]*$|^(~{3,})")
@@ -266,6 +269,10 @@ def wrap_paragraph_lines(
                 if word == "|" and i + 1 < len(words) and _md_table_delim_pat.match(words[i + 1]):
                     # A delimiter row written with spaces: `| - | - |`.
                     escaped_word = "\\|"
+                elif escaped_word == word and lines and "|" in lines[-1] and _md_table_cell_pat.match(word):
+                    # Under a line with a pipe, our parser takes a line that starts like a
+                    # delimiter cell (`-v`, `:-x`) for the delimiter row of a table.
+                    escaped_word = "\\" + word
 
             # Recalculate width after potential escaping for the new line.
             escaped_word_width = len_fn(escaped_word) + reserve
